@@ -22,6 +22,8 @@ RULE = (
     "per-realization / merged gradient estimation x combined / split evaluation. Oracle: failed flags formula; functions/gradients None iff successes < threshold and the "
     "same evaluation inside an optimizer step ends with TOO_FEW_REALIZATIONS; values equal the reference on the survivors, "
     "the REAL code on the reduced ensemble (differential, for functions and - when the survivors lost no perturbation - for gradients, merged included), and the least-squares fit over the surviving perturbations for per-realization gradients. "
+    "Within a shard all cases with the same configuration REUSE one EnsembleEvaluator (each case starts from the state the "
+    "previous failure patterns left behind; a violation that needs that history is replayed by re-running the shard). "
     "Trivial: nothing judged (abort by filter/estimator, which C14 judges)."
 )
 ASSUMPTIONS = [
@@ -73,7 +75,9 @@ def fmap_of(flt: str) -> tuple[int, ...]:
     return (-1, -1, -1) if flt == "none" else (0, -1, 0)
 
 
-def judge(case: dict[str, Any]) -> Judgement:
+def judge(case: dict[str, Any], shared: dict[Any, Any] | None = None) -> Judgement:
+    """`shared`: per-shard store of evaluators that are REUSED by all cases with the same configuration, so that every
+    case (except the first of its configuration) starts from a non-initial state; `None` = a fresh evaluator."""
     from ropt.ensemble_evaluator import EnsembleEvaluator
     from ropt.enums import OptimizerExitCode
     from ropt.exceptions import OptimizationAborted
@@ -97,13 +101,22 @@ def judge(case: dict[str, Any]) -> Judgement:
         bit = r if p < 0 else R + r * P + p
         return bool((subset >> bit) & 1)
 
-    def fail(call: int, row: int, r: int, p: int) -> Any:
-        return [nan_col] if cell_fails(r, p) else None
-
     manager, scripted = make_manager()
     x = np.array(config.variables.initial_values)
-    evaluator = TableEvaluator(ens_fn, 2, 1, fail=fail)
-    ens = EnsembleEvaluator(config, None, evaluator, manager)
+    key = (R, P, rms, pms, flt, case["emap"], merge)
+    if shared is not None and key in shared:
+        ens, state = shared[key]
+    else:
+        state = {}
+
+        def fail(call: int, row: int, r: int, p: int, state: dict[str, Any] = state) -> Any:
+            bit = r if p < 0 else R + r * P + p
+            return [state["nan_col"]] if (state["subset"] >> bit) & 1 else None
+
+        ens = EnsembleEvaluator(config, None, TableEvaluator(ens_fn, 2, 1, fail=fail), manager)
+        if shared is not None:
+            shared[key] = (ens, state)
+    state["subset"], state["nan_col"] = subset, nan_col
     aborted = None
     fres = gres = None
     try:
@@ -264,7 +277,7 @@ def judge(case: dict[str, Any]) -> Judgement:
                 j.fail("gradient-not-survivor-gradient", function=f, observed=gobs[f], expected=expected)
     # (c) optimizer step ends with TOO_FEW_REALIZATIONS
     if (expect_f_none or expect_g_none) and case.get("step", True):
-        ev2 = TableEvaluator(ens_fn, 2, 1, fail=lambda c, row, r, p: fail(c, row, r, p))
+        ev2 = TableEvaluator(ens_fn, 2, 1, fail=lambda c, row, r, p: [nan_col] if cell_fails(r, p) else None)
         context = OptimizerContext(evaluator=ev2, plugin_manager=manager)
         plan = Plan(context)
         step = plan.add_step("optimizer")
@@ -306,6 +319,7 @@ def shards(tier: str, seed: int) -> list[dict[str, Any]]:
 def run_shard(shard: dict[str, Any]) -> core.ShardResult:
     rec = Recorder(shard)
     R, P, tier = shard["R"], shard["P"], shard["tier"]
+    shared: dict[Any, Any] = {}
     for subset in range(*shard["subsets"]):
         for nan_col in (0, 1, 2):
             if subset == 0 and nan_col:
@@ -324,7 +338,7 @@ def run_shard(shard: dict[str, Any]) -> core.ShardResult:
                                 case = {"R": R, "P": P, "subset": subset, "nan_col": nan_col, "rms": rms, "pms": pms,
                                         "filter": flt, "emap": emap, "merge": merge, "split": split, "seed": shard["seed"],
                                         "step": nan_col == 0, "differential": not split}
-                                j = judge(case)
+                                j = judge(case, shared)
                                 rec.add((R, P, subset, nan_col, rms, pms, flt, emap, merge, split), case, j)
     return rec.finish()
 
